@@ -1251,8 +1251,15 @@ pub fn unfold(nodes: &[cs::SchemaNode]) -> Result<MSchema, String> {
 			}
 			seen.insert(full, idx);
 		} else {
-			if stack.contains(&idx) {
-				return Err(format!("cycle through unnamed node {idx}"));
+			// a cycle is inexpressible only if no named node lies on it: look back on the stack
+			// up to the innermost named node being expanded (which is written by name from now on)
+			for &up in stack.iter().rev() {
+				if nodes[up].type_.name().is_some() {
+					break;
+				}
+				if up == idx {
+					return Err(format!("cycle through unnamed node {idx}"));
+				}
 			}
 		}
 		stack.push(idx);
